@@ -84,6 +84,22 @@ class RGen:
             nodes.append(oh.make_node("Div", [a, z2], [o2], name=self.nname("Div")))
             self.features.add("constants_differing_in_the_sign_of_zero")
             return [(out, "F23"), (o2, "F23")]
+        if self.gen >= 5 and self.opset >= 17 and t.pick(14) == 0:
+            # version 5: twin nodes with optional outputs, one of which omits the middle output that the other one's
+            # consumers need (LayerNormalization: Y, Mean, InvStdDev)
+            sc = self.pick_kind(pool, "F3")
+            if sc is not None:
+                y1, i1, y2, m2, i2, o1, o2 = (self.fresh() for _ in range(7))
+                first = [oh.make_node("LayerNormalization", [a, sc], [y1, "", i1], axis=-1, name=self.nname("LayerNormalization")),
+                         oh.make_node("LayerNormalization", [a, sc], [y2, m2, i2], axis=-1, name=self.nname("LayerNormalization"))]
+                if t.pick(2):
+                    first.reverse()
+                nodes.extend(first)
+                nodes.append(oh.make_node("Add", [y1, i1], [o1], name=self.nname("Add")))
+                nodes.append(oh.make_node("Add", [y2, m2], [o2], name=self.nname("Add")))
+                self.features.add("duplicate_differs_in_omitted_optional_output")
+                self.features.add("duplicate_subexpression")
+                return [(o1, "F23"), (o2, "F23")]
         if self.gen >= 5 and t.pick(14) == 0:
             # version 5: a value that is not a tensor (a sequence built and indexed on the spot; its type is declared nowhere)
             ci, sq = self.fresh("ci"), self.fresh("sq")
